@@ -149,7 +149,7 @@ TRet ==
      ELSE IF work # <<>> THEN (IF Top.t = "send" THEN Flag("missing_delivery:" \o KindOf(Top.m) \o (IF Top.done = {} THEN ":none" ELSE ":some"))
                                ELSE Flag("serializer_not_called"))
      ELSE IF Ev.v # call.v /\ lastop # "LeaveElsewhere"      \* refusing or completing a foreign leave: either way c's context must stand
-          THEN (IF call.v = "ok" THEN Flag("call_raised:" \o Ev.v \o ":" \o lastop) ELSE Flag("exception_not_propagated:" \o Ev.v))
+          THEN (IF call.v = "ok" THEN Flag("call_raised:" \o Ev.v \o ":" \o lastop) ELSE Flag("exception_not_propagated:" \o Ev.v \o ":" \o lastop))
      ELSE IF Ev.cur # cur[call.c] THEN Flag("current_action_after:" \o lastop)
      ELSE Return /\ Step /\ UNCHANGED <<umap, lastop>>
 
